@@ -268,6 +268,16 @@ def run(tier, seed, replay):
         sp["what"] = ["todo-exemption"]
         specs.append(sp)
         plan.append(("verdict", ("todo %s" % sv, want)))
+    # ... and across files the LAST declaration of `todo` decides whether the attributes are checked
+    BAD = {"getter": "MustGetLogger", "tags": ["dup", "dup"], "calls": [["Set Level"]]}
+    for f0, f1, want in [({"todo": True}, dict({"todo": False, "constructor": "NewA"}, **BAD), False), (dict({"todo": False, "constructor": "NewA"}, **BAD), {"todo": True}, True),
+                         ({"todo": True}, dict({"constructor": "NewA"}, **BAD), True), (dict({"constructor": "NewA"}, **BAD), {"todo": True}, True),
+                         (dict({"todo": True}, **BAD), {"todo": False, "constructor": "NewA"}, False), ({"todo": False, "constructor": "NewA"}, {"todo": True, "getter": "Must Bad"}, True),
+                         ({"todo": True}, {"todo": False, "constructor": "NewA"}, True), ({"todo": False}, {"todo": True}, True)]:
+        sp = common.mk_spec(len(specs), [{"services": {"logger": f0}}, {"services": {"logger": f1}}])
+        sp["what"] = ["todo-exemption-two-files"]
+        specs.append(sp)
+        plan.append(("verdict", ("todo across files %s then %s" % (f0, f1), want)))
     # a version error and grammar errors are all reported in one run
     sp = common.mk_spec(len(specs), [{"version": "9.9.9", "parameters": {"1bad": 1}, "services": {"s": {"constructor": "New X"}}}])
     sp["what"] = ["version-and-grammar"]
